@@ -63,7 +63,7 @@ pub fn plant_population(fs: &mut SimFs, t: &mut Tape, dir: &str, n: usize, prefi
     Population { files, subdirs }
 }
 
-pub fn judge_episodes(w: &World, caps: &dyn Fn(usize) -> usize, gran: i64) -> Result<(usize, usize, usize, usize), String> {
+pub fn judge_episodes(w: &World, caps: &dyn Fn(usize) -> usize, gran: i64, strict: bool) -> Result<(usize, usize, usize, usize), String> {
     let inv = w.inv.lock().unwrap();
     let (mut eps, mut ev, mut mv, mut sp) = (0, 0, 0, 0);
     for ep in inv.episodes.iter() {
@@ -71,7 +71,7 @@ pub fn judge_episodes(w: &World, caps: &dyn Fn(usize) -> usize, gran: i64) -> Re
         // The library counts every non-directory entry it lists.  Dot-files
         // are C17's business; populations here contain none.
         let after = ep.after();
-        match sc_model::check_maintenance(&ep.before, &after, &ep.restamped.iter().map(|r| r.0.clone()).collect::<Vec<_>>(), cap, ep.now, gran) {
+        match sc_model::check_maintenance(&ep.before, &after, &ep.restamped.iter().map(|r| r.0.clone()).collect::<Vec<_>>(), cap, ep.now, gran, strict) {
             Ok(s) => {
                 eps += 1;
                 ev += s.evicted;
@@ -193,7 +193,7 @@ impl Check for C07 {
         let capf = |_d: usize| cap;
         let mut over_capacity = false;
         if out.violation.is_none() {
-            match judge_episodes(&w, &capf, gran) {
+            match judge_episodes(&w, &capf, gran, kn.strict_order()) {
                 Ok((eps, ev, mv, sp)) => {
                     out.count("episodes", eps as u64);
                     out.count("evictions", ev as u64);
